@@ -4,9 +4,13 @@ Input: a problem *recipe* (vk.recipe JSON, as produced by vk.gen.problem / vk.ge
 Output: domain text, problem text, the name map recipe-name -> PDDL-name, and the set of surface forms used.  The printer
 deliberately uses forms the UP writer never emits: a :constants section for arbitrary objects, untyped parameters, object lists
 with several groups per type, nested / unary and/or, imply, comparisons in either operand order, = between objects,
-(when c (and e1 e2)), (forall (?x) (when ...)), typed :functions, unary minus, upper-case spellings, comments, :action-costs.
+(when c (and e1 e2)), (forall (?x) (when ...)), typed :functions, unary minus, upper-case spellings, comments, :action-costs,
+quantifier variables named from a small pool (?v, ?x, ...) so that several quantified conditions / forall effects of one domain
+reuse a variable name with different types (PDDL variables are scoped by their binder).
+plant_quantified_conditions() widens a recipe with quantified conditions over every type of a hierarchy with sibling subtypes.
 Nothing of the library is used here.
 """
+import copy
 from fractions import Fraction
 
 FORMS = [
@@ -32,13 +36,29 @@ FORMS = [
     "either-less-mixed-list",
     "not-in-init",
     "implicit-zero-cost",
+    "shared-variable-name:conditions",
+    "shared-variable-name:effects",
+    "short-variable-names",
 ]
+
+# quantifier variables are local to their binder: a text may use the same few names for all of them
+VAR_POOL = ["?v", "?x", "?y", "?z", "?w", "?u", "?t", "?s"]
 
 
 class Printer:
-    def __init__(self, rng, rec, untyped=False, p_upper=None, allow_empty_precondition=True):
+    def __init__(self, rng, rec, untyped=False, p_upper=None, allow_empty_precondition=True, short_vars=None):
         self.rng, self.rec, self.untyped = rng, rec, untyped
         self.allow_empty_precondition = allow_empty_precondition
+        # naming policy of quantifier variables: derived from the recipe's variable name, or taken from VAR_POOL by nesting
+        # depth (all outermost quantifiers of the domain are then called ?v, or ?x, ..., whatever their type)
+        self.short_vars = (rng.random() < 0.5) if short_vars is None else short_vars
+        self.pool = VAR_POOL[rng.randrange(3) :] if self.short_vars else []
+        # (not (p a)) in :init is refused by the AI-planning reader as unsupported (documented rejection): a per-text choice, so
+        # that the share of texts outside the common fragment does not grow with the number of false ground atoms
+        self.p_not_init = 0.3 if rng.random() < 0.12 else 0.0
+        self.scope = []  # [(recipe variable name, printed name)] innermost last
+        self.cur_params = set()  # printed parameter names of the action being printed
+        self.qtypes = {"conditions": {}, "effects": {}}  # printed variable name -> set of type names it was bound with
         if p_upper is None:  # PDDL is case-insensitive; only some texts play with the spelling
             p_upper = 0.1 if rng.random() < 0.1 else 0.0
         self.forms = set()
@@ -109,8 +129,26 @@ class Printer:
         if k == "p":
             return self.var(e[1])
         if k == "v":
+            for n, printed in reversed(self.scope):
+                if n == e[1]:
+                    return printed
             return self.var("v" + e[1])
         raise ValueError(f"term {e}")
+
+    def bind(self, n, tname, where):
+        """Enter the scope of a quantifier variable; returns its printed name."""
+        if self.short_vars:
+            taken = {p for _, p in self.scope} | self.cur_params
+            printed = next((x for x in self.pool if x not in taken), None) or self.var("v" + n)
+            self.forms.add("short-variable-names")
+        else:
+            printed = self.var("v" + n)
+        self.scope.append((n, printed))
+        self.qtypes[where].setdefault(printed, set()).add(None if self.untyped else tname)
+        return printed
+
+    def unbind(self, k):
+        del self.scope[len(self.scope) - k :]
 
     def fexp(self, e):
         args = "".join(" " + self.term(a) for a in e[2:])
@@ -175,8 +213,10 @@ class Printer:
             return f"(and (imply {a} {b}) (imply {b} {a}))"
         if k in ("exists", "forall"):
             self.req.add(":existential-preconditions" if k == "exists" else ":universal-preconditions")
-            vs = " ".join(self.typed([self.var("v" + n)], t[1], True) for n, t in e[1])
-            return f"({self.sp(k)} ({vs}) {self.bexp(e[2], depth + 1)})"
+            vs = " ".join(self.typed([self.bind(n, t[1], "conditions")], t[1], True) for n, t in e[1])
+            body = self.bexp(e[2], depth + 1)
+            self.unbind(len(e[1]))
+            return f"({self.sp(k)} ({vs}) {body})"
         if k == "eq" and not self.is_num(e[1]):
             self.forms.add("object-equality")
             self.req.add(":equality")
@@ -217,6 +257,7 @@ class Printer:
             if e.get("cond") is not None and i + 1 < len(effs) and effs[i + 1].get("cond") == e["cond"] and effs[i + 1].get("forall") == e.get("forall"):
                 group.append(effs[i + 1])
             i += len(group)
+            vs = " ".join(self.typed([self.bind(n, t[1], "effects")], t[1], True) for n, t in e.get("forall") or [])
             body = [self.simple_effect(x) for x in group]
             if len(body) > 1 or (e.get("cond") is not None and r.random() < 0.25):
                 s = f"(and {' '.join(body)})"
@@ -231,8 +272,8 @@ class Printer:
                 self.req.add(":conditional-effects")
                 if e.get("cond") is not None:
                     self.forms.add("forall-when")
-                vs = " ".join(self.typed([self.var("v" + n)], t[1], True) for n, t in e["forall"])
                 s = f"(forall ({vs}) {s})"
+                self.unbind(len(e["forall"]))
             out.append(s)
         return out
 
@@ -295,6 +336,7 @@ class Printer:
             self.req.add(":action-costs")
         for a in rec["actions"]:
             params = []
+            self.cur_params = {self.var(n) for n, t in a["params"]}
             for n, t in a["params"]:
                 params.append(self.typed([self.var(n)], t[1], True))
             pre = [self.bexp(c) for c in a["pre"]]
@@ -326,7 +368,14 @@ class Printer:
                 if c is not None:
                     effs.append(f"(increase (total-cost) {c})")
             eff_s = effs[0] if len(effs) == 1 and r.random() < 0.4 else f"(and {' '.join(effs)})"
+            self.cur_params = set()
             acts.append(f" (:action {self.nm('a', a['name'])}\n  :parameters ({' '.join(params)})\n  :precondition {pre_s}\n  :effect {eff_s})")
+        # the same printed variable name bound with different types by two binders of the domain
+        qc, qe = self.qtypes["conditions"], self.qtypes["effects"]
+        if any(len(ts) > 1 for ts in qc.values()):
+            self.forms.add("shared-variable-name:conditions")
+        if any(len(ts | qc.get(n, set())) > 1 for n, ts in qe.items()):
+            self.forms.add("shared-variable-name:effects")
         goal = [self.bexp(g) for g in rec["goals"]]
         metric = None
         if costs is not None:
@@ -387,7 +436,7 @@ class Printer:
                 if f["type"] == "bool":
                     if v[1]:
                         init.append(self.fexp(fe))
-                    elif r.random() < 0.1:
+                    elif r.random() < self.p_not_init:
                         self.forms.add("not-in-init")
                         init.append(f"(not {self.fexp(fe)})")
                 else:
@@ -422,6 +471,122 @@ class Printer:
                 return True
             t = self.types.get(t)
         return False
+
+
+# ---- recipe-level widening: quantified conditions over the types of a hierarchy -------------------------------------------------
+def plant_quantified_conditions(rng, rec):
+    """Adds to a recipe several quantified conditions / effects over *different* types of one type hierarchy - a type, sibling
+    subtypes of it (created if the recipe has fewer than two) - all reading one unary predicate declared over the top type, so
+    that each of them is well-typed for every type of the hierarchy: preconditions, effect conditions (when), forall effects
+    (plain and conditional) and, rarely, a goal. All planted binders use the same recipe variable name, i.e. the same PDDL
+    variable name under either naming policy of the printer. The initial state makes the predicate's extension differ between
+    the types (all / some / none of a type's objects), so that quantifying over the wrong type changes truth values.
+    Returns (recipe, number of planted binders)."""
+    r = copy.deepcopy(rec)
+    fathers = {n: f for n, f in r["types"]}
+    if not fathers or not r["actions"]:
+        return rec, 0
+    used = {n for n, _ in r["types"]} | {o for o, _ in r["objects"]} | {f["name"] for f in r["fluents"]} | {a["name"] for a in r["actions"]}
+
+    def fresh(base):
+        k = 0
+        while f"{base}{k}" in used:
+            k += 1
+        used.add(f"{base}{k}")
+        return f"{base}{k}"
+
+    def is_sub(t, sup):
+        while t is not None:
+            if t == sup:
+                return True
+            t = fathers.get(t)
+        return False
+
+    # the top type: prefer one that already has subtypes / a unary Boolean predicate over it
+    unary = [f for f in r["fluents"] if f["type"] == "bool" and len(f["sig"]) == 1 and f["sig"][0][1][0] == "user"]
+    tops = [f["sig"][0][1][1] for f in unary] if unary and rng.random() < 0.6 else [n for n, _ in r["types"]]
+    top = rng.choice(tops)
+    kids = [n for n, f in r["types"] if f == top]
+    while len(kids) < 2:
+        t = fresh("S")
+        r["types"].append([t, top])
+        fathers[t] = top
+        kids.append(t)
+    for t in kids:  # every sibling has an object of its own (possibly besides objects of its subtypes)
+        if not any(ot[1] == t for _, ot in r["objects"]) or rng.random() < 0.25:
+            r["objects"].append([fresh("so"), ["user", t]])
+    if not any(ot[1] == top for _, ot in r["objects"]) and rng.random() < 0.5:
+        r["objects"].append([fresh("so"), ["user", top]])
+    domain_types = [top] + kids
+    preds = [f for f in unary if f["sig"][0][1][1] == top]
+    if preds and rng.random() < 0.5:
+        pred = rng.choice(preds)["name"]
+    else:
+        pred = fresh("qp")
+        r["fluents"].append({"name": pred, "type": "bool", "sig": [["x0", ["user", top]]], "default": ["b", False]})
+        # something changes the predicate, so that truth values of the planted conditions vary over the reached states
+        r["actions"].append(
+            {
+                "name": fresh("qa"),
+                "params": [["y0", ["user", top]]],
+                "pre": [["not", ["f", pred, ["p", "y0"]]]],
+                "effects": [{"kind": "assign", "fluent": ["f", pred, ["p", "y0"]], "value": ["b", True], "cond": None, "forall": []}],
+            }
+        )
+    # initial extension of the predicate: one sibling has it on all of its objects, another one lacks it on some object
+    objs_of = lambda t: [o for o, ot in r["objects"] if is_sub(ot[1], t)]  # noqa: E731
+    val = {o: rng.random() < 0.5 for o in objs_of(top)}
+    a, b = rng.sample(kids, 2)
+    if rng.random() < 0.8:
+        for o in objs_of(a):
+            val[o] = True
+        val[rng.choice(objs_of(b))] = False
+    r["init"] = [[fe, v] for fe, v in r["init"] if fe[1] != pred] + [[["f", pred, ["o", o]], ["b", v]] for o, v in sorted(val.items())]
+    vn = "x"
+
+    def quantified(t):
+        v = ["v", vn, ["user", t]]
+        atom = ["f", pred, v]
+        x = rng.random()
+        body = atom if x < 0.55 else ["not", atom]
+        others = [f for f in unary if f["name"] != pred and is_sub(t, f["sig"][0][1][1])]
+        if others and rng.random() < 0.3:
+            body = [rng.choice(["and", "or"]), body, ["f", rng.choice(others)["name"], v]]
+        return [rng.choice(["forall", "exists"]), [[vn, ["user", t]]], body]
+
+    def marker():
+        m = fresh("qm")
+        r["fluents"].append({"name": m, "type": "bool", "sig": [], "default": ["b", False]})
+        return ["f", m]
+
+    n_sites = rng.choice([2, 3, 3, 4, 5])
+    # the binders' types: at least two different ones, siblings first
+    types = [a, b] + [rng.choice(domain_types) for _ in range(n_sites - 2)]
+    rng.shuffle(types)
+    qe = None
+    planted = 0
+    for t in types:
+        act = rng.choice(r["actions"])
+        x = rng.random()
+        if x < 0.45:
+            act["pre"].append(quantified(t))
+        elif x < 0.7:
+            act["effects"].append({"kind": "assign", "fluent": marker(), "value": ["b", True], "cond": quantified(t), "forall": []})
+        elif x < 0.93:
+            if qe is None:
+                qe = fresh("qe")
+                r["fluents"].append({"name": qe, "type": "bool", "sig": [["x0", ["user", top]]], "default": ["b", False]})
+            written = {e["fluent"][1] for e in act["effects"]}
+            if qe in written:
+                act["pre"].append(quantified(t))
+            else:
+                v = ["v", vn, ["user", t]]
+                cond = None if rng.random() < 0.5 else (["f", pred, v] if rng.random() < 0.5 else ["not", ["f", pred, v]])
+                act["effects"].append({"kind": "assign", "fluent": ["f", qe, v], "value": ["b", True], "cond": cond, "forall": [[vn, ["user", t]]]})
+        else:
+            r["goals"].append(quantified(t))
+        planted += 1
+    return r, planted
 
 
 def print_pddl(rng, rec, untyped=False, allow_empty_precondition=True):
